@@ -514,14 +514,14 @@ uint8_t* DNS::update_dname(uint8_t* ptr, uint32_t threshold, uint32_t offset) {
                 index = Endian::host_to_be<uint16_t>((index + offset) | 0xc000);
                 memcpy(ptr, &index, sizeof(uint16_t));
             }
-            ptr += sizeof(uint16_t);
-            break;
+            return ptr + sizeof(uint16_t);
         }
         else {
             ptr += *ptr + 1;
         }
     }
-    return ptr;
+    // The name ended with a null label rather than with a pointer: skip the null byte
+    return ptr + 1;
 }
 
 // Updates offsets in domain names inside records.
